@@ -42,3 +42,30 @@ def replay(payload):
     except Exception as e:
         return {'fails': True, 'observed': repr(e), 'expected': repr(exp)}
     return {'fails': obs != exp, 'observed': repr(obs), 'expected': repr(exp)}
+
+
+def search(_payload):
+    from fractions import Fraction as F
+    import itertools
+    vals = [F(k, 8) for k in range(-24, 25, 3)]
+    tried = 0
+    for l, u in [(F(-2), F(10)), (F(0), F(0)), (F(-1), F(1, 8))]:
+        for v in vals:
+            for fn, a in (('checkLimits', [v, l, u]), ('constrainLimits', [v, l, u])):
+                tried += 1
+                r = replay({'fn': fn, 'args': [float(x) for x in a]})
+                if r['fails']:
+                    return {'found': True, 'input': (fn, [float(x) for x in a]), 'observed': r['observed'], 'expected': r['expected'], 'tried': tried}
+            for t in (F(0), F(1, 8), F(1, 4)):
+                tried += 1
+                r = replay({'fn': 'checkLimitsTol', 'args': [float(v), float(l), float(u), float(t)]})
+                if r['fails']:
+                    return {'found': True, 'input': ('checkLimitsTol', float(v), float(l), float(u), float(t)), 'observed': r['observed'], 'expected': r['expected'], 'tried': tried}
+    for x, y in itertools.product(vals[::2], repeat=2):
+        for b in ([0, 0, 10, 10], [0, 0, 11, 8.5], [-1, -2, 0.5, 3]):
+            for t in (0.0, 0.125, 1e-9):
+                tried += 1
+                r = replay({'fn': 'point_in_bounds', 'args': [float(x), float(y)] + b + [t]})
+                if r['fails']:
+                    return {'found': True, 'input': ('point_in_bounds', float(x), float(y), b, t), 'observed': r['observed'], 'expected': r['expected'], 'tried': tried}
+    return {'found': False, 'tried': tried}
